@@ -585,16 +585,18 @@ class TGen(F.Gen):
                      'sign': lambda e: e['k'] == 'call' and e['f'] == 'sign',
                      'intcast': lambda e: e['k'] == 'call' and e['f'] == 'int'}
 
-    def program(self, nstmts=6, depth=2):
-        for _ in range(200):
+    def program(self, nstmts=6, depth=2, need=None):
+        for _ in range(400):
             prog = self._program(nstmts, depth)
+            if need is not None and need not in self.used:
+                continue
             if self.focus in self.EXPR_FEATURES:
                 # the construct must really occur (twice) in the emitted program
                 if sum(1 for e in _exprs(prog) if self.EXPR_FEATURES[self.focus](e)) >= 2:
                     return prog
             elif self.focus is None or self.focus in self.used or self.focus in ('lb', 'intfn'):
                 return prog
-        raise MachineryError(f'generator: feature {self.focus} never produced')
+        raise MachineryError(f'generator: feature {self.focus or need} never produced')
 
     def _program(self, nstmts, depth):
         rng = self.rng
@@ -696,10 +698,12 @@ def gen_cases(rng, pools, core, counts, ninputs=3):
                 feats |= {'select'}
             g = TGen(rng, feats, None if pool == 'core' else pool)
             if pool == 'core':
-                prog = g.program(nstmts=rng.randint(3, 7), depth=2)
+                # every third core program contains a power as the denominator of a division / a run-time stride
+                needs = [x for x in ('rpow_den', 'varstep') if x.split('_')[0] in feats] + [None]
+                prog = g.program(nstmts=rng.randint(3, 7), depth=2, need=needs[len(cases) % len(needs)])
             else:
                 prog = g.program(nstmts=rng.randint(2, 4), depth=2 if pool in ('step', 'lvafter', 'boundmod', 'exitcycle', 'lb', 'select', 'selneg', 'idxdiv', 'varstep') else 1)
-            cases.append({'prog': prog, 'inputs': g.inputs(prog, ninputs if pool == 'core' else 2), 'pool': pool})
+            cases.append({'prog': prog, 'inputs': g.inputs(prog, ninputs if pool == 'core' else 2), 'pool': pool, 'used': sorted(g.used)})
     return cases
 
 
@@ -1098,15 +1102,49 @@ def check(ctx, label, cases, transform, execute, *, entry='kernel', max_disagree
     return results, fails, stats
 
 
+# Textual marks of the KNOWN defect of a pool in the transpiled code.  They make the violation key specific: a failure
+# in a known-finding pool whose transpiled code does not show the known defect's mark gets `w=none` and is therefore not
+# matched by a known-finding regex that names the mark.
+_CFN = r'\b(?:fmin|fmax|fabs|copysign|pow)\('
+WITNESS = {
+    'f2c': {
+        'fndiv': [('fn-in-division', lambda t, c: any(re.search(_CFN, ln) and re.search(r' / |%', ln) for ln in t.splitlines())),
+                  ('fn-in-subscript', lambda t, c: re.search(r'\[[^\]]*' + _CFN, t))],
+        'boundmod': [('variable-bound', lambda t, c: re.search(r'for \(\w+ = [^;]*; \w+ [<>]= t[12];', t))],
+        'idxdiv': [('literal-quotient-in-subscript', lambda t, c: re.search(r'\[[^\]]*\b\d+ / \d+\b[^\]]*\]', t))],
+        'section': [('none-bound', lambda t, c: re.search(r'= None;', t)), ('section-loop', lambda t, c: re.search(r'for \(i_\w+_\d+ =', t))],
+        'exitcycle': [('none-stmt', lambda t, c: re.search(r'^\s*None\s*$', t, re.M)), ('empty-block', lambda t, c: re.search(r'\{\n\s*\n\s*\}', t))],
+    },
+    'f2py': {
+        'lb': [('shift-1-on-lb', lambda t, c: re.search(r'- 1[\],:]', t) and any(d['dims'] and d['dims'][0][0] != 1 for d in c['prog']['units'][0]['decls']))],
+        'lvafter': [('loopvar-read-after-loop', lambda t, c: 'lvafter' in c.get('used', ['lvafter']))],
+        'idiv': [('int-true-division', lambda t, c: re.search(r' / \(?-?\d+\)?(?![\d.])', t))],
+        'sign': [('np.sign-product', lambda t, c: re.search(r'\*np\.sign\(', t)), ('sign-verbatim', lambda t, c: re.search(r'(?<![\w.])sign\(', t))],
+        'conv': [('float-into-int-scalar', lambda t, c: re.search(r'^\s*(?:k|s) = .*\d\.\d', t, re.M))],
+        'select': [('multiconditional-repr', lambda t, c: '<MultiConditional' in t)],
+        'section': [('array-rebind', lambda t, c: re.search(r'^\s*(?:ia|ra|ib) = ', t, re.M)), ('slice', lambda t, c: re.search(r'\[[^\]]*:[^\]]*\]', t))],
+    },
+}
+
+
+def witness(label, case, res):
+    text = res.get('newtext', '')
+    if not text:
+        return 'n/a'                     # the transformation raised: the signature is the diagnostic
+    text = text.split('--- kernel_fc.F90 ---')[0]
+    names = [n for n, fn in WITNESS.get(label, {}).get(case['pool'], []) if fn(text, case)]
+    return '+'.join(names) or 'none'
+
+
 def report(ctx, label, cases, results, fails, recheck=None, shrink_pools=('core',), max_shrink=4, rounds=4):
-    """One violation per (pool, failure signature).  key = <label>:<pool>:<signature>.  Failures of the pools in
+    """One violation per (pool, failure signature, witness).  key = <label>:<pool>:<signature>:w=<witness>.  Failures of the pools in
     `shrink_pools` are shrunk by statement deletion (the whole check is re-run on the candidates)."""
     groups = {}
     for idx, kind, msg in fails:
-        groups.setdefault((cases[idx]['pool'], signature(kind, msg)), []).append((idx, kind, msg))
-    ctx.cover[f'{label}_failure_groups'] = {f'{p}:{s}': len(v) for (p, s), v in sorted(groups.items())}
+        groups.setdefault((cases[idx]['pool'], signature(kind, msg), witness(label, cases[idx], results[idx])), []).append((idx, kind, msg))
+    ctx.cover[f'{label}_failure_groups'] = {f'{p}:{s}:w={w}': len(v) for (p, s, w), v in sorted(groups.items())}
     nshrunk = 0
-    for (pool, sig), members in sorted(groups.items()):
+    for (pool, sig, wit), members in sorted(groups.items()):
         idx, kind, msg = min(members, key=lambda m: len(results[m[0]]['text']))
         c = cases[idx]
         small = c['prog']
@@ -1124,7 +1162,7 @@ def report(ctx, label, cases, results, fails, recheck=None, shrink_pools=('core'
                 if nxt is None:
                     break
                 small = nxt
-        key = f'{label}:{pool}:{sig}'
+        key = f'{label}:{pool}:{sig}:w={wit}'
         what = (f'{label} pool={pool}: {len(members)} program(s); transpiled code '
                 f'{"computes different results (clause output-differs of Trace_Transpile)" if kind == "output" else kind}: {msg[:600]}\n'
                 f'--- original{" (shrunk)" if small is not c["prog"] else ""} ---\n{render_standalone(small)}'
@@ -1169,6 +1207,13 @@ def run_property(ctx, label, transform, execute, core, pools, quick_counts, thor
     ctx.cover[f'{label}_statement_kinds'] = kinds
     if results:
         ctx.sample({'pool': cases[0]['pool'], 'program': results[0]['text'], 'transpiled': results[0].get('newtext', '')[:3000], 'inputs': cases[0]['inputs'][:1]})
+    judged_ok = {r['idx'] for r in results if r.get('new', ('',))[0] == 'ok'}
+    for feat in ('rpow_den', 'varstep'):
+        if feat.split('_')[0] in core:
+            nfeat = sum(1 for i, c in enumerate(cases) if c['pool'] == 'core' and feat in c.get('used', []) and i in judged_ok)
+            ctx.cover[f'{label}_core_programs_with_{feat}'] = nfeat
+            if not ctx.replay and 'core' in pools and nfeat < 3:
+                raise MachineryError(f'vacuity: only {nfeat} executed core programs contain {feat}')
     if not ctx.replay and stats['judged_programs'] < 0.5 * len(cases):
         raise MachineryError(f'vacuity: only {stats["judged_programs"]} of {len(cases)} programs were judged ({stats})')
     ctx.assumptions += assumptions
